@@ -553,6 +553,7 @@ package raft
 
 //@ func Raft.sendInstallSnapshot
 //@   flags inline lockheld
+//@   at before-assign follower.matchIndex assert [snapshot-acknowledged] request.Done && err == nil && r.state == Leader && response.BytesWritten == offset + n && newval == request.LastIncludedIndex
 //@   at before-assign request.Done assert [chunk-bounded] 0 <= n && n <= snapshotChunkSize && newval == (n < snapshotChunkSize)
 //@   at before-assign follower.nextIndex assume [A-SNAP-LABEL] newval <= Llast + 1
 
